@@ -82,13 +82,31 @@ def repo_hash():
     return hash_files(files)
 
 
-def harness_hash():
-    files = tree_files(os.path.join(VERIF, "harness"))
-    files += tree_files(os.path.join(VERIF, "lib"))
-    kf = os.path.join(VERIF, "known_findings.json")
-    if os.path.exists(kf):
-        files.append(kf)
-    return hash_files(files)
+CORE_FILES = ["harness/src/nd.rs", "harness/src/dom.rs", "harness/src/oracle.rs",
+              "harness/src/stubs.rs", "harness/src/lib.rs", "harness/Cargo.toml.in",
+              "lib/gen.py"]
+MODULE_DEPS = {"c03": ["c02"], "poll": ["pnm"], "c19": ["pnm"], "generated": ["numeric"]}
+_core_hash = None
+
+
+def harness_hash(h=None):
+    """Hash of everything a harness's verdict depends on besides /repo: the shared core of the
+    harness crate, the module holding its body (and the modules that one uses), the generated
+    sources, its registry entry and the Kani flags."""
+    global _core_hash
+    if _core_hash is None:
+        _core_hash = hash_files([os.path.join(VERIF, f) for f in CORE_FILES]) + \
+            hashlib.sha256(" ".join(KANI_FLAGS).encode()).hexdigest()
+    if h is None:
+        return _core_hash
+    mod = h.body.split("::")[0]
+    mods = [mod] + MODULE_DEPS.get(mod, [])
+    files = [os.path.join(VERIF, "harness", "src", m + ".rs") for m in mods if m != "generated"]
+    extra = ""
+    if mod == "generated":
+        extra = hashlib.sha256(gen.conversion_source(REPO).encode()).hexdigest()
+    entry = "|".join(str(x) for x in (h.name, h.body, h.args, h.cfg, h.expect, h.unwind, h.fast))
+    return hashlib.sha256((_core_hash + hash_files(files) + extra + entry).encode()).hexdigest()
 
 
 # ------------------------------------------------------------------------------------------------
@@ -369,12 +387,12 @@ def make_chunks(hs, jobs, costs):
 
 def run_all(hs, jobs, use_cache, logdir):
     """Run harnesses (with result cache); returns {name: result}."""
-    rh, hh = repo_hash(), harness_hash()
+    rh = repo_hash()
     results = {}
     todo = []
     os.makedirs(CACHE, exist_ok=True)
     for h in hs:
-        key = hashlib.sha256(("%s|%s|%s|%s|%s" % (rh, hh, h.name, h.cfg, h.fast)).encode()).hexdigest()
+        key = hashlib.sha256(("%s|%s" % (rh, harness_hash(h))).encode()).hexdigest()
         h.cache_key = key
         cp = os.path.join(CACHE, key + ".json")
         if use_cache and os.path.exists(cp):
